@@ -117,6 +117,10 @@ def base_documents(rng, thorough):
         elif r < 0.7:
             segs, kind = walk_gen.mutate_envelope(rng, segs, d)
         docs.append(('gen:%s:%s:%d' % (name, kind, k), docgen.encode(segs, d, '')))
+        if k % 3 == 0:
+            # the same with an EMPTY segment (two terminators in a row) somewhere: skipped by the reader in every layout
+            j = rng.randint(1, len(segs))
+            docs.append(('gen:%s:%s+empty-segment:%d' % (name, kind, k), docgen.encode(segs[:j] + [''] + segs[j:], d, '')))
     return docs
 
 
